@@ -147,6 +147,14 @@ def _c10_viol(res):
             for r in res["ast"]["verdicts"] if r["bad"]]
 
 
+def _gen_c15(res):
+    """Generated parsers (vgen) that hang, panic or abort while parsing."""
+    v = []
+    for r in res["ast"].get("c15", []):
+        v.append(dict(stage="ast", id=r["id"], what=[[w[0]] for w in r["what"]], kind="c15", cyclic=r.get("cyclic"), n=None))
+    return v
+
+
 def _c11_viol(res):
     v = [dict(stage="ast", id=r["id"], what=r["what"], kind="rustc") for r in res["ast"]["c11"]]
     for r in res["codegen"]["rustc"]:
@@ -183,9 +191,9 @@ PROPS = {
     "C13": dict(stages=["tables", "lr", "glr"],
                 viol=lambda res: _trace_viol(res, "lr", "c13") + _trace_viol(res, "glr", "c13")),
     "C14": dict(stages=["tables", "lr"], viol=lambda res: _trace_viol(res, "lr", "c14")),
-    "C15": dict(stages=["tables", "lr", "mci_lr", "glr"],
+    "C15": dict(stages=["tables", "lr", "mci_lr", "glr", "ast"],
                 viol=lambda res: _trace_viol(res, "lr", "c15") + _mci_viol(res, "mci_lr", "C15") + _replay_viol(res, "c15")
-                + _trace_viol(res, "glr", "c15")),
+                + _trace_viol(res, "glr", "c15") + _gen_c15(res)),
 }
 
 
@@ -289,6 +297,8 @@ def known_match(prop, v, ctx):
         if sig.get("only_what") and not names <= set(sig["only_what"]):
             continue
         if sig.get("stage") and sig["stage"] != v.get("stage"):
+            continue
+        if sig.get("algo") == "glr" and not (v.get("stage") == "glr" or "algo=glr" in v.get("id", "")):
             continue
         if "cyclic" in sig and sig["cyclic"] != v.get("cyclic"):
             continue
